@@ -17,6 +17,7 @@ RULE = (
     "x likelihoods x shapes x batch patterns (+ Kronecker multitask models); hyper-parameters drawn per batch element; distinct = "
     "distinct cell (everything but the seed); non-trivial iff posterior differs from the prior by > 1e-3 in mean or covariance"
     '; pass 5: cases under default dtype float32 (model moved with .double()) and under no_grad / inference_mode'
+    '; pass 6: max_cholesky_size exactly at / one below the train, test and joint sizes, max_eager_kernel_size == joint size; exact GPs with two input tensors (Hadamard multitask); only the prediction-time CG tolerance is tightened'
 )
 REQUIRED = ["posterior_mean", "posterior_covar", "likelihood_adds_noise", "mean_cache", "path:linear_cg", "path:exact_predictive_covar"]
 ASSUMPTIONS = [
